@@ -1022,6 +1022,13 @@ def model_strategy(profile="c13", rich=False, family=None):
         shapes[ld["name"]] = osh
         prev = [l["name"] for l in layers[:-1]] + ["in"]
         cur = _merge(g, layers, shapes, ld["name"], prev)
+    if profile == "c13":
+      # frozen layers: state without trainable variables
+      for ld in layers:
+        if ld["cls"].startswith("Q") and ld["cls"] not in (
+            "QActivation", "QAdaptiveActivation", "QAveragePooling2D",
+            "QGlobalAveragePooling2D") and g.chance(6):
+          ld["kw"]["trainable"] = False
     return {"input": shapes["in"], "layers": layers, "out": cur,
             "family": fam,
             "wseed": g.i(0, 10 ** 6), "wscale": g.pick([1.0, 0.25, 3.0]),
@@ -1216,7 +1223,8 @@ def canonical_models(profile):
       ("QDepthwiseConv2DBatchnorm", {"kernel_size": [2, 2], "strides": [1, 1],
                                      "padding": "same", "depth_multiplier": 2,
                                      "use_bias": False, "dilation_rate": [1, 1],
-                                     "folding_mode": "ema_stats_folding"},
+                                     "folding_mode": "ema_stats_folding",
+                                     "center": False},
        {"depthwise_quantizer": _qb(6, 2, 1.0), "bias_quantizer": fx,
         "activation": None}),
       fl], "image", 3))
@@ -1229,7 +1237,10 @@ def canonical_models(profile):
       ("Add", {"__in__": ["c1_qconv2d", "c2_qbatchnormalization"]}, {}),
       ("QScaleShift", {"use_bias": True},
        {"weight_quantizer": fx, "bias_quantizer": fx, "activation": relu}),
-      fl], "image", 4))
+      ("QAveragePooling2D", {"pool_size": [2, 2], "strides": None, "padding": "valid"},
+       {"average_quantizer": None, "activation": None}),
+      ("QGlobalAveragePooling2D", {}, {"average_quantizer": None, "activation": None})],
+                  "image", 4))
   # sequence family
   rq = {"kernel_quantizer": fx, "recurrent_quantizer": _qb(4, 0, 1.0),
         "bias_quantizer": po2, "state_quantizer": _qb(5, 1, 1.0),
@@ -1251,7 +1262,34 @@ def canonical_models(profile):
                  "unit_forget_bias": False, "implementation": 2}, rq2),
       ("QGRU", {"units": 2, "use_bias": False, "return_sequences": False,
                 "reset_after": True}, dict(rq2, bias_quantizer=None))], "seq", 6))
+  fine = {"kernel_quantizer": _qb(8, 1, 1.0), "recurrent_quantizer": _qb(8, 1, 1.0),
+          "bias_quantizer": _qb(8, 1, 1.0), "state_quantizer": None,
+          "activation": {"s": "quantized_tanh(8)"},
+          "recurrent_activation": {"s": "quantized_sigmoid(8)"}}
+  for seed, variants in ((14, [(True, True, False), (False, True, True)]),
+                         (15, [(True, False, True), (False, False, False)])):
+    lay = [("QGRU", {"__in__": ["in"], "units": 3, "use_bias": ub,
+                     "return_sequences": False, "reset_after": ra},
+            dict(fine, recurrent_quantizer=None) if norq else fine)
+           for ra, ub, norq in variants]
+    if seed == 15:
+      lay.append(("QLSTM", {"__in__": ["in"], "units": 3, "use_bias": False,
+                            "return_sequences": False}, dict(fine, bias_quantizer=po2)))
+    d = _desc([4, 2], lay, "seq", seed)
+    d["layers"].append({"name": "cat", "cls": "Concatenate",
+                        "in": [l["name"] for l in d["layers"]], "kw": {}, "q": {}})
+    d["out"] = "cat"
+    ms.append(d)
   if profile == "c13":
+    ms.append(_desc([4], [
+        ("QDense", {"units": 3, "use_bias": True, "trainable": False},
+         {"kernel_quantizer": fx, "bias_quantizer": fx, "activation": None}),
+        ("QBatchNormalization", {"center": False, "scale": False},
+         {"gamma_quantizer": None, "beta_quantizer": None, "mean_quantizer": fx,
+          "variance_quantizer": None}),
+        ("QDense", {"units": 2, "use_bias": True},
+         {"kernel_quantizer": po2, "bias_quantizer": None, "activation": None}),
+        ("QBatchNormalization", {"scale": False, "trainable": False}, {})], "vec", 16))
     ms.append(_desc([3, 2], [
         ("QBidirectional", {"merge_mode": "sum"},
          {"__inner__": {"cls": "QSimpleRNN", "in": ["in"],
@@ -1318,6 +1356,9 @@ def canonical_models(profile):
                                            "number_of_unrolls": 3}},
         {"q": "stochastic_binary", "kw": {"alpha": 0.5, "temperature": 4.0,
                                           "use_real_sigmoid": False}},
+        {"q": "quantized_linear", "kw": {"bits": 5, "integer": 1, "symmetric": 0,
+                                         "alpha": 2.0, "keep_negative": False,
+                                         "use_stochastic_rounding": True}},
     ]
     lay = [("QActivation", {"__in__": ["in"]}, {"activation": a}) for a in acts]
     d = _desc([4], lay, "vec", 11)
@@ -1390,6 +1431,11 @@ def canonical_models(profile):
                         "in": [l["name"] for l in d["layers"]], "kw": {}, "q": {}})
     d["out"] = "cat"
     ms.append(d)
+    # data-independent {0,1} binary codes (alpha = 1: only use_01 matters)
+    ms.append(_desc([4], [
+        ("QDense", {"units": 3, "use_bias": True},
+         {"kernel_quantizer": {"q": "binary", "kw": {"alpha": 1.0, "use_01": True}},
+          "bias_quantizer": fx, "activation": None})], "vec", 17))
     ms.append(_desc([4], [
         ("QDense", {"units": 3, "use_bias": True},
          {"kernel_quantizer": binr, "bias_quantizer": tern, "activation": relu}),
